@@ -17,7 +17,7 @@ def entry_ok(arg, ctx, e) -> bool:
     return e is None
 
 
-@contract("core.circuitbuilder:GateMemoizer._make_gate_memo_key.<locals>.make_context_entry", props=["C07"])
+@contract("core.circuitbuilder:GateMemoizer._make_gate_memo_key.<locals>.make_context_entry", props=["C07", "C14"])
 class MakeContextEntry:
     def requires(arg, context):
         return isinstance(context, dict)
@@ -28,20 +28,29 @@ class MakeContextEntry:
     raises_only = ()
 
 
-@assumed("core.circuitbuilder:GateMemoizer._make_hashable", props=["C07"])
-class MakeHashableAssumed:
-    """Assumed: converts nested lists to tuples (its result is only used as a dictionary key component)."""
+@spec
+def hashed(obj, r) -> bool:
+    """r is obj with every list or tuple, at any depth, replaced by a tuple of the same length and (recursively) the
+    same elements - the argument text itself, in hashable form"""
+    if isinstance(obj, list) or isinstance(obj, tuple):
+        return isinstance(r, tuple) and len(r) == len(obj) and forall_range(len(obj), lambda k: hashed(obj[k], r[k]))
+    return same(r, obj)
+
+
+@contract("core.circuitbuilder:GateMemoizer._make_hashable", props=["C07", "C14"])
+class MakeHashable:
+    """the key component for the argument text keeps every element of the arguments, in order, at every depth"""
 
     def requires(cls, obj):
         return True
 
     def ensures(cls, obj, result):
-        return True
+        return hashed(obj, result)
 
     raises_only = ()
 
 
-@contract("core.circuitbuilder:GateMemoizer._make_gate_memo_key", props=["C07"])
+@contract("core.circuitbuilder:GateMemoizer._make_gate_memo_key", props=["C07", "C14"])
 class MemoKey:
     """the key consists of the gate name, the argument text and, per argument, the context binding of every
     identifier mentioned in it at any nesting depth - so two uses share a memoized gate only if every identifier
@@ -52,6 +61,9 @@ class MemoKey:
 
     def ensures_shape(self, gate_name, gate_args, context, result):
         return isinstance(result, tuple) and len(result) == 3 and same(result[0], gate_name)
+
+    def ensures_text(self, gate_name, gate_args, context, result):
+        return hashed(gate_args, result[1])
 
     def ensures_bindings(self, gate_name, gate_args, context, result):
         return (isinstance(result[2], tuple) and len(result[2]) == len(gate_args)
